@@ -29,11 +29,26 @@ type Case struct {
 	Chunk    int    // the reader hands out at most Chunk bytes per Read (0 = unlimited)
 }
 
+// EFI_CERT_TYPE_RSA2048_SHA256_GUID, EFI_CERT_RSA2048_GUID, EFI_CERT_X509_GUID, EFI_CERT_SHA256_GUID, EFI_CERT_TYPE_PKCS7_GUID, all-zero
+var knownCertTypes = []guid.G{
+	{D1: 0xa7717414, D2: 0xc616, D3: 0x4977, D4: [8]byte{0x94, 0x20, 0x84, 0x47, 0x12, 0xa7, 0x35, 0xbf}},
+	{D1: 0x3c5766e8, D2: 0x269c, D3: 0x4e34, D4: [8]byte{0xaa, 0x14, 0xed, 0x77, 0x6e, 0x85, 0xb3, 0xb6}},
+	{D1: 0xa5c059a1, D2: 0x94e4, D3: 0x4aa7, D4: [8]byte{0x87, 0xb5, 0xab, 0x15, 0x5c, 0x2b, 0xf0, 0x72}},
+	{D1: 0xc1c41626, D2: 0x504c, D3: 0x4092, D4: [8]byte{0xac, 0xa9, 0x41, 0xf9, 0x36, 0x93, 0x43, 0x28}},
+	{D1: 0x4aafd29d, D2: 0x68df, D3: 0x49ee, D4: [8]byte{0x8a, 0xa9, 0x34, 0x7d, 0x37, 0x56, 0x65, 0xa7}},
+	{},
+}
+
 func genCase(t *rapid.T) Case {
 	var ct guid.G
-	if rapid.Bool().Draw(t, "pkcs7guid") {
+	switch rapid.IntRange(0, 3).Draw(t, "certtypekind") {
+	case 0, 1:
 		ct = authvar.PKCS7GUID
-	} else {
+	case 2:
+		// the other certificate types the specification defines: structurally the same descriptor, a body of any
+		// length (the decoder does not interpret it)
+		ct = rapid.SampledFrom(knownCertTypes).Draw(t, "knowncerttype")
+	default:
 		ct = gen.GUID().Draw(t, "certtype")
 	}
 	max := 4096
@@ -262,6 +277,22 @@ func checkCase(c Case) error {
 	if back.Time != v.Time || back.AuthInfo.Header.Length != v.AuthInfo.Header.Length || back.AuthInfo.Header.Revision != v.AuthInfo.Header.Revision ||
 		back.AuthInfo.Header.CertType != v.AuthInfo.Header.CertType || back.AuthInfo.CertType != v.AuthInfo.CertType || !bytes.Equal(back.AuthInfo.CertData, v.AuthInfo.CertData) {
 		return fmt.Errorf("decode(encode(v)) != v")
+	}
+	// decoding defines the receiver: a value that held another (longer, then shorter) descriptor holds exactly the
+	// new one afterwards
+	var reused signature.EFIVariableAuthentication2
+	for _, prev := range [][]byte{bytes.Repeat([]byte{0x5a}, len(c.CertData)+37), bytes.Repeat([]byte{0xc3}, len(c.CertData)/2)} {
+		if err := reused.Unmarshal(bytes.NewBuffer(authvar.EncodeAuth2(ts, authvar.Revision2, authvar.TypeEFIGUID, authvar.PKCS7GUID, prev))); err != nil {
+			return fmt.Errorf("Unmarshal rejects a well-formed descriptor: %v", err)
+		}
+		if err := reused.Unmarshal(bytes.NewBuffer(append([]byte{}, in...))); err != nil {
+			return fmt.Errorf("Unmarshal into a value that held another descriptor rejects a well-formed descriptor: %v", err)
+		}
+		var rb bytes.Buffer
+		reused.Marshal(&rb)
+		if !bytes.Equal(rb.Bytes(), desc) || !bytes.Equal(reused.AuthInfo.CertData, c.CertData) {
+			return fmt.Errorf("Unmarshal into a value that held a descriptor with %d bytes of certificate data does not yield the descriptor decoded (%d bytes of certificate data): re-encoding gives %d bytes, %d were consumed", len(prev), len(c.CertData), rb.Len(), len(desc))
+		}
 	}
 	// 3. WIN_CERTIFICATE_UEFI_GUID alone
 	wu, err := signature.ReadWinCertificateUEFIGUID(bytes.NewReader(in[16:]))
